@@ -21,15 +21,19 @@ type regOp struct {
 	Kind string `json:"kind"`
 }
 
-func regCfg(params string, maxDepth, maxOps int, rel, fb, emit bool) string {
+func regCfg(params string, maxDepth, maxOps int, rel, fb, emit bool, wb ...bool) string {
+	wbExit, wbPanic := true, true
+	if len(wb) == 2 {
+		wbExit, wbPanic = wb[0], wb[1]
+	}
 	b := func(x bool) string {
 		if x {
 			return "TRUE"
 		}
 		return "FALSE"
 	}
-	return fmt.Sprintf("CONSTANTS\n NumRegisters = 8\n ParamChoices = %s\n MaxDepth = %d\n MaxOps = %d\n ReleaseOnEveryExit = %s\n FallBackWhenFull = %s\n EmitOn = %s\nINIT Init\nNEXT Next\nVIEW view\nINVARIANTS Balanced NoPanic SlotsAreAStack Bounded\n",
-		params, maxDepth, maxOps, b(rel), b(fb), b(emit))
+	return fmt.Sprintf("CONSTANTS\n NumRegisters = 8\n ParamChoices = %s\n MaxDepth = %d\n MaxOps = %d\n ReleaseOnEveryExit = %s\n FallBackWhenFull = %s\n WriteBackOnExit = %s\n WriteBackOnPanic = %s\n EmitOn = %s\nINIT Init\nNEXT Next\nVIEW view\nINVARIANTS Balanced NoPanic SlotsAreAStack Bounded SameBindings\n",
+		params, maxDepth, maxOps, b(rel), b(fb), b(wbExit), b(wbPanic), b(emit))
 }
 
 // instantiate turns a register schedule into a sequence of REPL inputs. variant selects naming /
@@ -218,7 +222,18 @@ func checkC05(c *Ctx) {
 			return
 		}
 	}
-	c.Cov("design_counterexamples", "ReleaseOnEveryExit=FALSE violates Balanced; FallBackWhenFull=FALSE violates NoPanic")
+	for _, wb := range [][2]bool{{false, true}, {true, false}} {
+		r, err := c.TLC(TLCOpt{Spec: "Registers", Cfg: regCfg("{0, 2}", 4, 5, true, true, false, wb[0], wb[1]), Workers: 4, AllowError: true})
+		if err != nil {
+			c.Infra(err)
+			return
+		}
+		if r.InvViolated != "SameBindings" {
+			c.Infra(fmt.Errorf("Registers.tla with write back on exit=%v on panic=%v did not violate SameBindings: %q %s", wb[0], wb[1], r.InvViolated, r.ErrText))
+			return
+		}
+	}
+	c.Cov("design_counterexamples", "ReleaseOnEveryExit=FALSE violates Balanced; FallBackWhenFull=FALSE violates NoPanic; WriteBackOnExit=FALSE and WriteBackOnPanic=FALSE violate SameBindings")
 
 	// 2. MC + GEN: schedules from the repaired mechanism model
 	params, depth, ops := "{0, 1, 8, 9, 12}", 10, 6
